@@ -172,7 +172,7 @@ fn main() {
             }
             eprintln!("violation: {:?}", rep.violation);
             eprintln!("faults: {:?}", rep.faults);
-            eprintln!("obs: {}", rep.observations.chars().take(3000).collect::<String>());
+            eprintln!("obs: {}", rep.observations.chars().take(60000).collect::<String>());
         }
         "debug-seq" => {
             let prop = pos.first().cloned().unwrap_or_else(|| usage());
